@@ -128,6 +128,9 @@ def check(case):
     w = mk_face(m, case['w'])
     if case.get('k5_moved'):
         res.excluded.append('K5')
+    k5 = None
+    if case.get('demo_k5') and any(np.any((np.array(wc) == 0) & (np.array(uc) != 0)) for uc, wc in zip(case['u'], case['w'])):
+        k5 = 'K5'     # replay of the known finding: direction field exactly zero on a face whose coefficient is not
 
     _cmp(res, name, "diffusion", _mat_interior(d, pf.diffusionTerm(D)),
          _basis_apply(m, d, lambda cv: pf.divergenceTerm(D * pf.gradientTerm(cv))))
@@ -136,7 +139,7 @@ def check(case):
     _cmp(res, name, "upwind", _mat_interior(d, pf.convectionUpwindTerm(u)),
          _basis_apply(m, d, lambda cv: pf.divergenceTerm(u * pf.upwindMean(cv, u))))
     _cmp(res, name, "upwind-dir", _mat_interior(d, pf.convectionUpwindTerm(u, w)),
-         _basis_apply(m, d, lambda cv: pf.divergenceTerm(u * pf.upwindMean(cv, w))))
+         _basis_apply(m, d, lambda cv: pf.divergenceTerm(u * pf.upwindMean(cv, w))), known=k5)
 
     # ---- TVD: zero limiter (any grid): correction vanishes bitwise
     phi = pf.CellVariable(m, np.array(case['phi'], dtype=float), BCsTerm_precalc=False)
